@@ -137,7 +137,17 @@ class Session:
         res = None
         with seams.quiet():
             if kind == "new":
-                self.net = N.Network(**self.net_kwargs(st.get("files")))
+                if st.get("replacement") is not None:
+                    # a script that parses its input under a replacement table (as `naunet render` does for a
+                    # project) and puts the previous table back at once: atomic within this step
+                    saved = N.Species._replacement
+                    N.Species._replacement = dict(st["replacement"])
+                    try:
+                        self.net = N.Network(**self.net_kwargs(st.get("files")))
+                    finally:
+                        N.Species._replacement = saved
+                else:
+                    self.net = N.Network(**self.net_kwargs(st.get("files")))
             elif kind == "add_file":
                 self.net.add_reaction_from_file(os.path.join(self.dir, st["file"]), st["fmt"])
             elif kind == "add_str":
